@@ -303,6 +303,14 @@ def _run(case, rec):
               f"a second call removed {n1 - len(em)} more droplets; {label}")
     # the queries once more after the removal calls: earlier calls must not influence later answers
     judge_queries(em, grid, rec, label + " [queried again after remove_overlapping]", order=(True, False))
+    if len(em) >= 2:
+        # ... and after a droplet was moved in place (same objects, new configuration)
+        shift = np.zeros(len(em[0].position))
+        shift[0] = 0.37 if not case.get("exact") else 0.5
+        em[len(em) // 2].position = np.asarray(em[len(em) // 2].position, float) + shift
+        _state["exact"] = False  # the moved configuration is judged with the ordinary knife-edge guard
+        judge_queries(em, grid, rec, label + " [queried again after moving one droplet in place]")
+        _state["exact"] = bool(case.get("exact"))
     rec.evaluated(nontrivial=(n1 < n0) or n0 >= 3)
     rec.count(f"n:{min(n0, 8)}")
     rec.count(f"grid:{bool(grid)}|dim:{len(case['droplets'][0]) - 1 if case['droplets'] else 0}")
@@ -361,7 +369,7 @@ def gen(rng, kind, tier):
         n = int(rng.integers(0, 9))
         L = float(rng.uniform(3, 12))
         mode = int(rng.integers(0, 6))
-        lo = float(rng.choice([0.0, 0.0, -L / 2, 10.0, float(np.round(rng.uniform(-5, 5), 2))]))  # box origin
+        lo = float(rng.choice([0.0, 0.0, -L / 2, 10.0, float(np.round(rng.uniform(-5, 5), 2)), 2.0 ** 20, -(2.0 ** 24)]))  # box origin (also far away)
         drops = []
         for i in range(n):
             if mode == 0 and drops:  # chain of overlaps
